@@ -39,6 +39,11 @@ fn aerr(e: anchor_lang::error::Error) -> u64 {
     u64::from(pe)
 }
 
+/// A panic inside an accessor is an outcome like any other (and differs from every legitimate one).
+fn guard<T>(f: impl FnOnce() -> Result<T, u64>) -> Result<T, u64> {
+    crate::svm::quiet_catch(f).unwrap_or(Err(u64::MAX))
+}
+
 impl Quad {
     pub fn new(start: i32, spacing: u16) -> Quad {
         let whirlpool = Pubkey::new_unique();
@@ -119,10 +124,10 @@ impl Quad {
             None => (TickUpdate::default(), PinoTickUpdate::default()),
         };
         let sp = self.spacing;
-        let r1 = self.afixed_mut().update_tick(idx, sp, &au).map_err(aerr);
-        let r2 = self.adyn_mut().update_tick(idx, sp, &au).map_err(aerr);
-        let r3 = self.pfix_mut().update_tick(idx, sp, &pu).map_err(u64::from);
-        let r4 = self.pdyn_mut().update_tick(idx, sp, &pu).map_err(u64::from);
+        let r1 = guard(|| self.afixed_mut().update_tick(idx, sp, &au).map_err(aerr));
+        let r2 = guard(|| self.adyn_mut().update_tick(idx, sp, &au).map_err(aerr));
+        let r3 = guard(|| self.pfix_mut().update_tick(idx, sp, &pu).map_err(u64::from));
+        let r4 = guard(|| self.pdyn_mut().update_tick(idx, sp, &pu).map_err(u64::from));
         let exp: Result<(), u64> = match self.model_slot(idx) {
             Some(s) => {
                 self.model[s] = td;
@@ -155,13 +160,13 @@ impl Quad {
             }),
             None => Err(6000 + whirlpool::errors::ErrorCode::TickNotFound as u64),
         };
-        let r1 = self.afixed().get_tick(idx, sp).map(|t| Self::tick_of_anchor(&t)).map_err(aerr);
-        let r2 = self.adyn().get_tick(idx, sp).map(|t| Self::tick_of_anchor(&t)).map_err(aerr);
+        let r1 = guard(|| self.afixed().get_tick(idx, sp).map(|t| Self::tick_of_anchor(&t)).map_err(aerr));
+        let r2 = guard(|| self.adyn().get_tick(idx, sp).map(|t| Self::tick_of_anchor(&t)).map_err(aerr));
         let pt = |t: &whirlpool::pinocchio::verif_export::wp_state::MemoryMappedTick| {
             (t.initialized(), TD { net: t.liquidity_net(), gross: t.liquidity_gross(), fa: t.fee_growth_outside_a(), fb: t.fee_growth_outside_b(), rw: t.reward_growths_outside() })
         };
-        let r3 = self.pfix().get_tick(idx, sp).map(pt).map_err(u64::from);
-        let r4 = self.pdyn().get_tick(idx, sp).map(pt).map_err(u64::from);
+        let r3 = guard(|| self.pfix().get_tick(idx, sp).map(pt).map_err(u64::from));
+        let r4 = guard(|| self.pdyn().get_tick(idx, sp).map(pt).map_err(u64::from));
         if r1 != exp || r2 != exp || r3 != exp || r4 != exp {
             return Err(format!("get_tick({idx}, {sp}) -> anchor-fixed {:?}, anchor-dynamic {:?}, pino-fixed {:?}, pino-dynamic {:?}, model {:?}", r1, r2, r3, r4, exp));
         }
@@ -201,8 +206,8 @@ impl Quad {
             }
             Ok(found)
         };
-        let r1 = self.afixed().get_next_init_tick_index(idx, sp, a_to_b).map_err(aerr);
-        let r2 = self.adyn().get_next_init_tick_index(idx, sp, a_to_b).map_err(aerr);
+        let r1 = guard(|| self.afixed().get_next_init_tick_index(idx, sp, a_to_b).map_err(aerr));
+        let r2 = guard(|| self.adyn().get_next_init_tick_index(idx, sp, a_to_b).map_err(aerr));
         if r1 != exp || r2 != exp {
             return Err(format!("get_next_init_tick_index({idx}, {sp}, a_to_b={a_to_b}) -> anchor-fixed {:?}, anchor-dynamic {:?}, model {:?}", r1, r2, exp));
         }
